@@ -62,6 +62,8 @@ def c04(tier, seed):
     cfgs = ["d", "c", "r", "rf"] if tier == "quick" else ["d", "c", "p", "r", "f", "rf", "cr", "crf", "nd"]
     runs = [run(c, "rel", "c04") for c in cfgs]
     runs += [run(c, "dbg", "c04", tag="dbg") for c in (["d", "rf"] if tier == "quick" else cfgs)]
+    # multi-digit on/off equality on the hostile default-API corpus (the c10 executor reports it under C04)
+    runs += [run("d", "rel", "c10", ["prop=C04"], tag="C04"), run("c", "rel", "c10", ["prop=C04"], tag="C04")]
     runs += miri("d", "c04", 4, 12, seed)
     runs += miri("r", "c04", 4 if tier == "quick" else 16, 420, seed, stride=53)
     if tier == "thorough":
@@ -200,7 +202,8 @@ def wx_runs(tier, prop, seed=0):
     runs.append(run("d", "dbg", "wx_std", a + ["defaultapi", "nfmt=1"], tag=prop + "dbg"))
     if prop in ("C08", "C09", "C17"):
         # integers: every type x every radix of the configuration at the documented bound and at every shorter length
-        for c in ["r", "c"] + (["d", "p", "crf", "nr"] if tier == "thorough" else []):
+        # `p` = power-of-two WITHOUT radix selects its own cfg branches of the step tables
+        for c in ["r", "c", "p"] + (["d", "crf", "nr", "np"] if tier == "thorough" else []):
             runs.append(run(c, "rel", "c09", a, tag=prop))
         runs.append(run("r", "dbg", "c09", a, tag=prop + "dbg"))
     if prop in ("C09", "C17"):
@@ -490,6 +493,9 @@ def replay_c03(body):
 
 def replay_c04(body):
     c = body["case"]
+    if "radix" not in c:
+        # reported by the default-API executor (c10): it replays the raw input for all types
+        return ["prop=C04", "replay=" + c["input"]]
     return [f"replay={c['type']}:{c['radix']}:{c['input']}"]
 
 
